@@ -33,6 +33,12 @@ func main() {
 		os.Exit(2)
 	}
 	p.LoadS = time.Since(start).Seconds()
+	if *dump == "funcs" {
+		for _, fn := range p.Funcs {
+			fmt.Println(funcName(fn))
+		}
+		return
+	}
 	if *dump == "panics" {
 		dumpPanicSites(p)
 		return
